@@ -152,7 +152,11 @@ Definition clear (s : fstate) : fstate :=
 Inductive fop :=
 | FCreate (sc : scope) (name : str) (d : ddef)
 | FClear
-| FPeers (src : option Z) (fire : bool).   (* membership source changes; the callback fires or not *)
+| FPeers (src : option Z) (fire : bool)    (* membership source changes; the callback fires or not *)
+| FCreateRace (sc : scope) (name : str) (d : ddef) (src : option Z).
+    (* a creation during which the membership changes to src and the callback is delivered: the
+       creation's updatePeerCounts reads the peer list under the factory lock, so the callback's
+       updatePeerCounts waits for it and runs right after it *)
 
 Definition fstep (s : fstate) (o : fop) : fstate * option N :=
   match o with
@@ -162,6 +166,10 @@ Definition fstep (s : fstate) (o : fop) : fstate * option N :=
       let s1 := {| f_reg := f_reg s; f_goals := f_goals s; f_next := f_next s; f_gen := f_gen s;
                    f_peers := f_peers s; f_src := src |} in
       ((if fire then update_peer_counts s1 else s1), None)
+  | FCreateRace sc name d src =>
+      let '(s1, id) := create s sc name d in
+      (update_peer_counts {| f_reg := f_reg s1; f_goals := f_goals s1; f_next := f_next s1; f_gen := f_gen s1;
+                             f_peers := f_peers s1; f_src := src |}, Some id)
   end.
 
 Fixpoint frun (s : fstate) (ops : list fop) : fstate :=
@@ -175,6 +183,7 @@ Fixpoint flog (s : fstate) (ops : list fop) : list (N * rkey * N) :=
       let '(s', out) := fstep s o in
       match o, out with
       | FCreate sc name d, Some id => (f_gen s, key_of sc name d, id) :: flog s' r
+      | FCreateRace sc name d _, Some id => (f_gen s, key_of sc name d, id) :: flog s' r
       | _, _ => flog s' r
       end
   end.
